@@ -85,7 +85,10 @@ def run_property(pid, tier, seed):
         jobs, cond_info = [], {}
         cdir = os.path.join(work_root, 'conds')
         os.makedirs(cdir, exist_ok=True)
+        only = os.environ.get('VERIF_ONLY_FAMILY')
         for fam in fams.values():
+            if only and fam.name not in only.split(','):
+                continue
             for sel in fam.conditions(tier, seed):
                 sel = tuple(sel)
                 idx = len(jobs)
@@ -102,6 +105,28 @@ def run_property(pid, tier, seed):
             results = xh.run_conditions(jobs, cdir, REPO, nproc=nproc, log=log)
         else:
             results = {}
+        if os.environ.get('VERIF_DUMP'):
+            with open(os.environ['VERIF_DUMP'], 'w') as fd:
+                json.dump([dict(fam=cond_info[i][0].name, sel=cond_info[i][1], **{k: v for k, v in results[i].items() if k != 'idx'})
+                           for i in sorted(results)], fd, default=str)
+        # replay every counterexample on the real code (shims off), in parallel
+        to_replay = {}
+        for idx, r in results.items():
+            fam, sel = cond_info[idx]
+            bad = [m for m in r['msgs'] if m[0] in ('POST_FAIL', 'EXEC_ERR', 'POST_ERR')]
+            if bad:
+                args = xh.parse_call_args(bad[0][1], fam.params)
+                if args is not None:
+                    to_replay[idx] = (fam, sel, args, 120)
+            elif any(m[0] == 'HUNG' for m in r['msgs']):
+                to_replay[idx] = (fam, sel, [False if t == 'bool' else 0 for _, t in fam.params], 60)
+        replayed = {}
+        if to_replay:
+            from concurrent.futures import ThreadPoolExecutor
+            with ThreadPoolExecutor(nproc) as tpe:
+                futs = {idx: tpe.submit(xh.replay_concrete, f'harness.{pid}', fam.name, list(sel), args, REPO, tmo)
+                        for idx, (fam, sel, args, tmo) in to_replay.items()}
+                replayed = {idx: (to_replay[idx][2],) + tuple(f.result()) for idx, f in futs.items()}
         n_paths = n_z3 = 0
         z3t = cpu = 0.0
         samples = []
@@ -131,12 +156,11 @@ def run_property(pid, tier, seed):
                     pf['confirmed'] += 1
             elif any(s in ('POST_FAIL', 'EXEC_ERR', 'POST_ERR') for s in states):
                 msg = [m for m in r['msgs'] if m[0] in ('POST_FAIL', 'EXEC_ERR', 'POST_ERR')][0]
-                args = xh.parse_call_args(msg[1], fam.params)
-                if args is None:
+                if idx not in replayed:
                     harness_errors.append(f'cannot parse counterexample of {fam.name}{sel}: {msg[1][:300]}')
                     verdict = 'error'
                 else:
-                    rv, detail = xh.replay_concrete(f'harness.{pid}', fam.name, list(sel), args, REPO)
+                    args, rv, detail = replayed[idx]
                     cov['traces_validated_against_impl'] += 1
                     if rv == 'fails':
                         verdict = 'refuted'
@@ -154,8 +178,7 @@ def run_property(pid, tier, seed):
                 harness_errors.append(f'{states[0]} in {fam.name}{sel}: {r["msgs"][0][1][-800:]}')
                 verdict = 'error'
             elif 'HUNG' in states:
-                zero = [False if t == 'bool' else 0 for _, t in fam.params]
-                rv, detail = xh.replay_concrete(f'harness.{pid}', fam.name, list(sel), zero, REPO, timeout=60)
+                zero, rv, detail = replayed[idx]
                 if rv == 'fails':
                     verdict = 'refuted'
                     pf['refuted'] += 1
